@@ -30,6 +30,13 @@ def units(tier):
     for pen, fi in ((('L1', False), ('L1', True)) if q else (('L1', False), ('L1', True), ('WeightedL1', True))):
         runs.append(dict(solver='ProxNewton', datafit='Quadratic', penalty=pen, X='corr32', max_iter=1, max_pn_iter=1, p0=2,
                          fit_intercept=fi, ws_strategy='subdiff', warm=False))
+    # GroupBCD (singleton-group layouts keep the norms piecewise linear): no zero padding, last entry == objective
+    for lay, fi, b in itertools.product(['single', 'rev'], (False, True), ((1, 1), (2, 1))):
+        if q and dh(('grp', lay, fi, b)) % 2:
+            continue
+        runs.append(dict(solver='GroupBCD', datafit='QuadraticGroup', penalty='WeightedGroupL2', X='corr32', layout=lay,
+                         max_iter=b[0], max_epochs=b[1], p0=1, fit_intercept=fi, ws_strategy='subdiff', warm=False,
+                         wg_concrete=[1.0, 0.5]))
     # history entry after an accepted extrapolation at the very last epoch (contract stub, see C03)
     for fi in ((False,) if q else (False, True)):
         runs.append(dict(solver='AndersonCD', datafit='Quadratic', penalty='L1', X='corr32', max_iter=1, max_epochs=1,
@@ -46,6 +53,26 @@ def units(tier):
         cid = ','.join('%s=%s' % (k, c[k]) for k in sorted(c))
         us.append(Unit('C17/D/run[%s]' % cid, ST.u_run, dict(cfg=c, want=('history',)), wall_s=150, max_paths=5000,
                        timeout_ms=8000, patched=c['solver'] == 'ProxNewton' or bool(c.get('acc_stub'))))
+    # MultiTaskBCD with one task: history length, last entry == objective of the returned W (intercept row unpenalised), monotone
+    for fi, sp, b in itertools.product((False, True), (False, True), ((1, 1), (2, 1), (2, 2))):
+        if q and (b == (2, 2) or (sp and b == (1, 1))):
+            continue
+        us.append(Unit('C17/D/MultiTaskBCD[T=1,intercept=%s,sparse=%s,budget=%s]' % (fi, sp, b), ST.u_multitask_run,
+                       dict(X='corr32', fit_intercept=fi, sparse=sp, warm=False, budget=b, want=('history',)), wall_s=90,
+                       timeout_ms=8000))
+    # the history is built from datafit.value() / penalty.value(): their faithfulness to the documented formulas is C06 / C07;
+    # the value() obligations of the datafits used by the regression estimators are re-used here (all hyper-parameters symbolic)
+    from checks import c06
+    for name in ('Huber', 'Quadratic', 'WeightedQuadratic'):
+        us.append(Unit('C17/K/value==documented[%s]' % name, c06.u_datafit,
+                       dict(name=name, n=2, p=2, pattern=c06.PATTERNS_32[0][:2]), wall_s=120))
+    # two tasks with an intercept: the returned stopping value bounds the violation of the returned point (largest absolute
+    # per-task intercept gradient), for catalogue targets of both sign patterns
+    for sp, (tag, Yc) in itertools.product((False, True), (('means(0,-3)', [[0.0, -2.0], [1.0, -5.0], [-1.0, -2.0]]),
+                                                          ('means(0,+3)', [[0.0, 2.0], [1.0, 5.0], [-1.0, 2.0]]))):
+        us.append(Unit('C17/D/MultiTaskBCD-stop_crit[T=2,intercept=True,sparse=%s,Y=%s]' % (sp, tag), ST.u_multitask_run,
+                       dict(X='corr32', fit_intercept=True, sparse=sp, warm=False, budget=(1, 0), T=2, want=('certificate',),
+                            Y_concrete=Yc), wall_s=90, timeout_ms=8000))
     # returned stopping value on a tolerance stop right after an accepted extrapolation (GramCD keeps scores across
     # iterations): stop_crit must be the violation of the returned point
     from checks.c01 import u_cert
@@ -61,10 +88,11 @@ def units(tier):
 MANIFEST = dict(
     claimed=True,
     level_text=("Bounded symbolic model checking of the diagnostics returned by the real drivers (AndersonCD, GramCD, "
-                "ProxNewton): for all y, alpha, tol (and weights), on every feasible control path of runs with max_iter<=2, "
+                "ProxNewton, GroupBCD): for all y, alpha, tol (and weights), on every feasible control path of runs with max_iter<=2, "
                 "len(history) <= max_iter with equality when the budget is exhausted (no padding), and the last history entry "
                 "equals the true objective of the returned point recomputed by the harness with the intercept unpenalised."),
     level_note=("Exact reals; catalogue design; ProxNewton with 1 PN step and inner loop constants patched to 2. The stop_crit "
-                "== violation half of the property is discharged in C01 ('violation<=stop_crit' and certificate). GroupBCD, "
-                "GroupProxNewton, MultiTaskBCD, FISTA, LBFGS histories and estimators' n_iter_ are not covered yet."),
+                "== violation half of the property is discharged in C01 ('violation<=stop_crit' and certificate). GroupBCD "
+                "histories on singleton-group layouts, MultiTaskBCD histories with one task. GroupProxNewton, FISTA, LBFGS "
+                "histories and estimators' n_iter_ are not covered."),
 )
